@@ -1,8 +1,121 @@
-(* C18con/Properties.v - placeholder while the model is validated against the code. *)
+(* C18con/Properties.v - the property theorems of unit C18con (con::Container<T>), and
+   nothing else.  Every theorem is closed by [exact <lemma>] and followed by Print Assumptions. *)
 From Coq Require Import NArith ZArith List Bool.
-From Morfuse Require Import Base.Arr C18con.Model C18con.Spec.
+From Morfuse Require Import Base.Arr C18con.Model C18con.Spec C18con.Proofs.
 Import ListNotations.
 Local Open Scope N_scope.
 
-Example C18con_smoke : run 1 [OAdd 0 1%Z] = spec_run 1 [OAdd 0 1%Z].
+(* The full statement
+     forall ns ops, run ns ops = spec_run ns ops
+   ("after every operation of every history on ns container variables the model of
+   con::Container shows the return value / exception, the contents of every container, the
+   number of live elements and the absence of lifetime errors that the list specification
+   shows") is FALSE of the faithful model: four refutations below, each confirmed on the real
+   code by harness/C18con.cpp (same observations as the model).  It is proved for every
+   history that avoids the defective calls; [safe_hist] is decided on the specification state
+   alone and rejects exactly: SetNumObjects(n) with n < NumObjects(), InsertObjectAt(i, _) with
+   1 <= i <= NumObjects() + 1, Resize(0) on a non-empty container. *)
+Theorem C18con_container_refines_list_on_safe_histories :
+  forall (ns : N) (ops : list op),
+    safe_hist ns ops = true -> run ns ops = spec_run ns ops.
+Proof. exact run_refines_spec. Qed.
+Print Assumptions C18con_container_refines_list_on_safe_histories.
+
+(* in particular for ALL histories over the other 23 operations (AddObject (3 forms),
+   AddUniqueObject, AddObjectAt, SetObjectAt, RemoveObjectAt, RemoveObject (2 forms), ObjectAt,
+   IndexOfObject, ObjectInList, SetNumObjectsUninitialized, Shrink, ClearObjectList,
+   FreeObjectList, Sort, the four constructors, copy and move assignment) *)
+Theorem C18con_container_refines_list_without_defective_operations :
+  forall (ns : N) (ops : list op),
+    forallb plain_op ops = true -> run ns ops = spec_run ns ops.
+Proof. exact run_refines_spec_plain. Qed.
+Print Assumptions C18con_container_refines_list_without_defective_operations.
+
+(* MaxObjects() >= NumObjects() for every container after every operation of a safe history *)
+Theorem C18con_capacity_covers_contents :
+  forall (ns : N) (ops : list op),
+    safe_hist ns ops = true ->
+    Forall (fun p => Forall2 (fun l c => len l <= c) (o_slots (fst p)) (snd p)) (run_full ns ops).
+Proof. exact capacity_covers_contents. Qed.
+Print Assumptions C18con_capacity_covers_contents.
+
+(* SetNumObjects(n), n < NumObjects(): the cut-off elements are never destructed *)
+Theorem C18con_SetNumObjects_shrink_refuted :
+  exists ops, run 1 ops <> spec_run 1 ops.
+Proof. exact setnum_shrink_refuted. Qed.
+Print Assumptions C18con_SetNumObjects_shrink_refuted.
+
+(* InsertObjectAt without reallocation: move-assignment / assignment to the raw cell behind
+   the last element; the inserted-over element is lost *)
+Theorem C18con_InsertObjectAt_in_place_refuted :
+  exists ops, run 1 ops <> spec_run 1 ops.
+Proof. exact insert_in_place_refuted. Qed.
+Print Assumptions C18con_InsertObjectAt_in_place_refuted.
+
+(* InsertObjectAt with reallocation: the old block is freed without destructing its elements *)
+Theorem C18con_InsertObjectAt_realloc_refuted :
+  exists ops, run 1 ops <> spec_run 1 ops.
+Proof. exact insert_realloc_refuted. Qed.
+Print Assumptions C18con_InsertObjectAt_realloc_refuted.
+
+(* Resize(0) (= reserve(0)) destroys all elements, Resize(n) for 0 < n < NumObjects() keeps them *)
+Theorem C18con_Resize_zero_refuted :
+  exists ops, run 1 ops <> spec_run 1 ops.
+Proof. exact resize_zero_refuted. Qed.
+Print Assumptions C18con_Resize_zero_refuted.
+
+(* ---- non-vacuity: a concrete safe history on two containers ----------------------------------- *)
+Definition demo : list op :=
+  [OAdd 0 3%Z; OAdd 0 1%Z; OAdd 0 2%Z; OAddUnique 0 1%Z; OAddAt 0 5 7%Z; ORemoveAt 0 9;
+   ORemove 0 0%Z; OSort 0; OCopyCtor 1 0; ORemoveAt 0 1; OMoveAssign 0 1; OSetNumU 0 2 9%Z;
+   OShrink 0; OAddDef 0; OIndexOf 0 0%Z; OFree 0].
+
+Example C18con_demo_is_safe : safe_hist 2 demo = true.
+Proof. vm_compute. reflexivity. Qed.
+
+Example C18con_demo_contents :
+  map (fun o => (o_ret o, o_slots o, o_live o, o_bad o)) (run 2 demo) =
+  [(RVal 1, [[3]; []], 1, 0%N);
+   (RVal 2, [[3; 1]; []], 2, 0%N);
+   (RVal 3, [[3; 1; 2]; []], 3, 0%N);
+   (RVal 2, [[3; 1; 2]; []], 3, 0%N);
+   (RNone, [[3; 1; 2; 0; 7]; []], 5, 0%N);
+   (RErr 9, [[3; 1; 2; 0; 7]; []], 5, 0%N);
+   (RNone, [[3; 1; 2; 7]; []], 4, 0%N);
+   (RNone, [[1; 2; 3; 7]; []], 4, 0%N);
+   (RNone, [[1; 2; 3; 7]; [1; 2; 3; 7]], 8, 0%N);
+   (RNone, [[2; 3; 7]; [1; 2; 3; 7]], 7, 0%N);
+   (RNone, [[1; 2; 3; 7]; []], 4, 0%N);
+   (RNone, [[1; 2]; []], 2, 0%N);
+   (RNone, [[1; 2]; []], 2, 0%N);
+   (RVal 2, [[1; 2; 0]; []], 3, 0%N);
+   (RVal 3, [[1; 2; 0]; []], 3, 0%N);
+   (RNone, [[]; []], 0, 0%N)]%Z.
+Proof. vm_compute. reflexivity. Qed.
+
+Example C18con_demo_capacities :
+  map snd (run_full 2 demo) =
+  [[2; 0]; [2; 0]; [6; 0]; [6; 0]; [6; 0]; [6; 0]; [6; 0]; [6; 0]; [6; 6]; [6; 6]; [6; 0];
+   [6; 0]; [2; 0]; [4; 0]; [4; 0]; [0; 0]].
+Proof. vm_compute. reflexivity. Qed.
+
+(* ---- what the model (and the real code) shows on the four witnesses --------------------------- *)
+Example C18con_witness_SetNumObjects :
+  map (fun o => (o_slots o, o_live o, o_bad o)) (run 1 [OAdd 0 1%Z; OSetNum 0 0]) =
+  [([[1]], 1, 0%N); ([[]], 1, 0%N)]%Z.                          (* specification: live = 0 *)
+Proof. vm_compute. reflexivity. Qed.
+
+Example C18con_witness_InsertObjectAt_in_place :
+  map (fun o => (o_slots o, o_live o, o_bad o)) (run 1 [OAdd 0 1%Z; OInsertAt 0 1 5%Z]) =
+  [([[1]], 1, 0%N); ([[5; -99]], 1, 1%N)]%Z.                    (* specification: [5; 1], live = 2, bad = 0 *)
+Proof. vm_compute. reflexivity. Qed.
+
+Example C18con_witness_InsertObjectAt_realloc :
+  map (fun o => (o_slots o, o_live o, o_bad o)) (run 1 [OAdd 0 1%Z; OAdd 0 2%Z; OInsertAt 0 1 5%Z]) =
+  [([[1]], 1, 0%N); ([[1; 2]], 2, 0%N); ([[5; 1; 2]], 5, 0%N)]%Z. (* specification: live = 3 *)
+Proof. vm_compute. reflexivity. Qed.
+
+Example C18con_witness_Resize_zero :
+  map (fun o => (o_slots o, o_live o, o_bad o)) (run 1 [OAdd 0 1%Z; OResize 0 0]) =
+  [([[1]], 1, 0%N); ([[]], 0, 0%N)]%Z.                          (* specification: [1], live = 1 *)
 Proof. vm_compute. reflexivity. Qed.
